@@ -151,7 +151,7 @@ pub fn object_constructor(
             obj.borrow_mut().prototype = Some(interp.string_prototype.clone());
             obj.borrow_mut().exotic = ExoticObject::StringObj(s.clone());
             // Also set length property for string wrappers
-            let len = s.len();
+            let len = s.as_str().chars().count();
             let length_key = PropertyKey::String(interp.intern("length"));
             obj.borrow_mut()
                 .set_property(length_key, JsValue::Number(len as f64));
